@@ -166,6 +166,18 @@ def check_structure(case):
     thr = gen.np_array(case["thr"]["flat"], tuple(case["thr"]["shape"]))
     g = _make(d, via="labels" if case["via"] == "labels" else "ctor", is_sorted=case["via"] == "sorted")
     check_object(g, d, thr, f"via={case['via']} config={d['sc']}/{d['ec']}")
+    if case["via"] == "ctor":
+        # the caller's arrays stay as they were, so a second object over the same arrays (e.g. with
+        # another grouping variable) sees the same (score, group) pairs
+        from score_analysis import GroupScores
+
+        dt = int if d["mode"] == "int" else float
+        pos, neg = np.asarray(d["pos"], dtype=dt), np.asarray(d["neg"], dtype=dt)
+        pg, ng = _labels(d, "pg"), _labels(d, "ng")
+        g1 = GroupScores(pos, neg, pos_groups=pg, neg_groups=ng, score_class=d["sc"], equal_class=d["ec"])
+        g2 = GroupScores(pos, neg, pos_groups=pg, neg_groups=ng, score_class=d["sc"], equal_class=d["ec"])
+        check_object(g2, d, thr, "second object over the same caller arrays")
+        require(triples(g1) == triples(g2), "grp:triples", "first and second object over the same arrays differ")
     sw = g.swap()
     d_sw = dict(d, sc="neg" if d["sc"] == "pos" else "pos", ec="neg" if d["ec"] == "pos" else "pos")
     check_object(sw, d_sw, thr, f"swap() of via={case['via']}", swapped=True)
@@ -203,8 +215,29 @@ def sampling_ok(d, method, strat, names=None):
 
 
 @st.composite
+def _big_group_sets(draw):
+    """90-130 scores per class (either side of the dynamic single-pass switch at 100), 2-3 groups,
+    every group present in both classes."""
+    n, m = draw(st.integers(90, 130)), draw(st.integers(90, 130))
+    G = draw(st.integers(2, 3))
+    names = ["a", "b", "c_d"][:G]
+    seed = draw(st.integers(0, 10**6))
+    rs = np.random.RandomState(seed)
+    vals = (rs.permutation(n + m) * 0.5 - 40).tolist()
+    pg = rs.randint(0, G, size=n).tolist()
+    ng = rs.randint(0, G, size=m).tolist()
+    pg[:G], ng[:G] = list(range(G)), list(range(G))
+    sc, ec = draw(gen.CONFIG)
+    return dict(kind="str", names=names, pos=vals[:n], neg=vals[n:], pg=pg, ng=ng, sc=sc, ec=ec,
+                mode="distinct", distinct=True)
+
+
+@st.composite
 def _sample_cases(draw):
-    d = draw(_group_sets(distinct=True, min_each=1, max_size=9))
+    if draw(st.integers(0, 5)) == 0:
+        d = draw(_big_group_sets())
+    else:
+        d = draw(_group_sets(distinct=True, min_each=1, max_size=9))
     method, strat = draw(st.sampled_from(SAMPLINGS))
     return dict(d=d, method=method, strat=strat, seed=draw(gen.RNG_SEED), reps=draw(st.integers(1, 4)))
 
@@ -226,7 +259,13 @@ def check_one_sample(src_obj, src_triples, src_names, b, method, strat, ctx, gro
             "grp:sample-flags", ctx)
     resolved = method
     if method == "dynamic":
-        resolved = "replacement"  # sources here are far below the switch at 100
+        npos, nneg = len(src_obj.pos), len(src_obj.neg)
+        if npos == 100 or nneg == 100:
+            resolved = None  # the docs say both ">100" and "at least 100"
+        elif strat == "by_group" or npos < 100 or nneg < 100:
+            resolved = "replacement"
+        else:
+            resolved = "single_pass"
     if resolved == "replacement":
         require(len(b.pos) + len(b.neg) == len(src_obj.pos) + len(src_obj.neg), "grp:sample-total",
                 f"{ctx}: {len(b.pos) + len(b.neg)} vs {len(src_obj.pos) + len(src_obj.neg)}")
@@ -266,7 +305,8 @@ def check_sampling(case):
     require(triples(g) == src_t, "grp:source-mutated", "")
     lacking = set(d["pg"]) != set(d["ng"])
     return dict(nontrivial=len(names) >= 2 and lacking or len(names) >= 2,
-                labels=[f"{method}/{strat}"] + (["group-lacks-class"] if lacking else []))
+                labels=[f"{method}/{strat}"] + (["group-lacks-class"] if lacking else [])
+                + (["big-source"] if len(d["pos"]) >= 90 else []))
 
 
 # ---------------------------------------------------------------------- clause: history
